@@ -35,8 +35,8 @@ def mangleNumber (t : List Char) : List Char × Bool :=
     match indexOf '.' t with
     | none => t
     | some dot =>
-      -- Remove trailing zeros
-      let t1 := dropTrailingZeros t
+      -- Remove trailing zeros (but not the trailing zeros of an exponent): `if !strings.ContainsAny(t, "eE")`
+      let t1 := if t.any (fun c => c = 'e' ∨ c = 'E') then t else dropTrailingZeros t
       if dot + 1 = t1.length then
         -- Remove the decimal point if it's unnecessary
         let t2 := t1.take dot
@@ -92,7 +92,9 @@ def shiftDot (text : List Char) (dotOffset : Int) : Option (List Char) :=
     let text := (stripTrailingRev text'.reverse dot).reverse
     -- Does this number have no fractional component?
     if dot ≥ (text.length : Int) then
-      some (sign ++ text ++ List.replicate (dot - (text.length : Int)).toNat '0')
+      -- All digits were zeros and have been removed (e.g. "00" shifted by -2)
+      if dot = 0 then some (sign ++ ['0'])
+      else some (sign ++ text ++ List.replicate (dot - (text.length : Int)).toNat '0')
     else
       -- Potentially add leading zeros
       let text' := if dot < 0 then List.replicate (-dot).toNat '0' ++ text else text
